@@ -8,7 +8,7 @@ import json
 from vlib import core, jssp
 from vlib.core import g_bool, g_opt, g_str, g_z
 
-IMPORTS = "From QV Require Import Jssp.Valid Jssp.C19Check."
+IMPORTS = "From QV Require Import Jssp.Valid Jssp.ResultObj Jssp.C19Check."
 EXC = "JobShopSchedulingProblemException"
 
 
@@ -71,6 +71,38 @@ def impl_accepts(f):
         return False, None
     except Exception as e:  # any other exception class is not the documented behaviour
         return False, type(e).__name__
+
+
+def impl_queries(inst, rows, qs):
+    """Read the given properties, in this order, on ONE freshly constructed result object."""
+    from queasars.job_shop_scheduling.problem_instances import JobShopSchedulingProblemException, JobShopSchedulingResult
+
+    res = JobShopSchedulingResult(jssp.impl_instance(inst), jssp.impl_general_schedule(rows))
+    out = []
+    for q in qs:
+        if q == "valid":
+            out.append(["valid", bool(res.is_valid)])
+        elif q == "makespan":
+            out.append(["makespan", res.makespan])
+        else:
+            try:
+                vs = res.valid_schedule
+                out.append(["accessor", False if (vs is res.schedule or vs == res.schedule) else "different-schedule"])
+            except JobShopSchedulingProblemException:
+                out.append(["accessor", True])
+    return out
+
+
+def g_answers(ans):
+    out = []
+    for k, v in ans:
+        if k == "valid":
+            out.append(f"AValid {g_bool(v)}")
+        elif k == "makespan":
+            out.append(f"AMakespan {g_opt(None if v is None else g_z(v))}")
+        else:
+            out.append(f"AAccessor {g_bool(v is True)}")
+    return core.g_list(out)
 
 
 def impl_verdict(inst, rows):
@@ -180,6 +212,21 @@ def do_case(ctx, case):
             ctx.violation("oracle", f"verdict-{what.split()[0]}", f"{what} disagrees with the JSSP definition: impl valid={valid} makespan={mk} accessor_raises={raises}, definition valid={sv} makespan={sm}", case)
         ctx.tally("verdict:valid" if sv else "verdict:invalid")
         return f"CVerdict {jssp.g_inst(inst)} {jssp.g_general_sched(rows)} {g_bool(valid)} {g_opt(None if mk is None else g_z(mk))} {g_bool(raises is True)}"
+    if kind == "queries":
+        inst, rows, qs = case["inst"], case["rows"], case["queries"]
+        try:
+            ans = impl_queries(inst, rows, qs)
+        except Exception as e:
+            ctx.violation("oracle", f"queries-exception-{type(e).__name__}", f"reading {qs} on a fresh result raised {type(e).__name__}: {e}", case)
+            return None
+        sv, sm = spec_verdict(rows)
+        want = [["valid", sv] if q == "valid" else ["makespan", sm] if q == "makespan" else ["accessor", not sv] for q in qs]
+        if ans != want:
+            k = next(i for i, (a, w) in enumerate(zip(ans, want)) if a != w)
+            ctx.violation("oracle", f"queries-{qs[k]}-after-{'-'.join(qs[:k]) or 'nothing'}", f"property '{qs[k]}' read after {qs[:k]} on a fresh result answers {ans[k][1]!r}, the JSSP definition says {want[k][1]!r}", case)
+        ctx.tally("queries:" + (qs[0] + "-first"))
+        gq = core.g_list({"valid": "QValid", "makespan": "QMakespan", "accessor": "QAccessor"}[q] for q in qs)
+        return f"CQueries {jssp.g_inst(inst)} {jssp.g_general_sched(rows)} {gq} {g_answers(ans)}"
     arg = case["arg"]
     from queasars.job_shop_scheduling.problem_instances import Job, JobShopSchedulingProblemInstance, JobShopSchedulingResult, Machine, Operation
 
@@ -228,6 +275,10 @@ def run(ctx):
     for _ in range(ctx.n(600, 12000)):
         inst, rows = gen_verdict_case(ctx.rng)
         cases.append({"kind": "verdict", "inst": inst, "rows": rows})
+    for _ in range(ctx.n(300, 6000)):
+        inst, rows = gen_verdict_case(ctx.rng)
+        qs = [ctx.rng.choice(["valid", "makespan", "accessor"]) for _ in range(ctx.rng.randint(1, 4))]
+        cases.append({"kind": "queries", "inst": inst, "rows": rows, "queries": qs})
     for _ in range(ctx.n(400, 8000)):
         k, arg = gen_ctor_case(ctx.rng)
         cases.append({"kind": k, "arg": arg})
@@ -237,7 +288,7 @@ def run(ctx):
     glits, kept = [], []
     for c in cases:
         g = do_case(ctx, c)
-        nontriv = c["kind"] != "verdict" or sum(len(e) for _, e in c["rows"]) >= 2
+        nontriv = c["kind"] not in ("verdict", "queries") or sum(len(e) for _, e in c["rows"]) >= 2
         ctx.case(c, nontriv, sample=c if len(ctx.samples) < 3 or (c["kind"] != "verdict" and len(ctx.samples) < 5) else None)
         if g is not None:
             glits.append(g)
